@@ -666,3 +666,614 @@ Section ProductProofs.
       rewrite Hrunf. exact (pgood_conformant clf obf obsf sfin Hgood Hf Hof Hvalid).
   Qed.
 End ProductProofs.
+
+(* ================================================================== Part 4: the dominated-state reduction *)
+Lemma lit_eqb_eq a b : lit_eqb a b = true <-> a = b.
+Proof.
+  destruct a as [p x], b as [q y]. unfold lit_eqb. simpl.
+  rewrite andb_true_iff, N.eqb_eq, Bool.eqb_true_iff. split; [intros [-> ->]; reflexivity | intros H; inversion H; auto].
+Qed.
+Lemma lit_eqb_refl a : lit_eqb a a = true.
+Proof. apply lit_eqb_eq. reflexivity. Qed.
+
+Lemma lneg_invol l : lneg (lneg l) = l.
+Proof. destruct l as [p b]. unfold lneg. simpl. rewrite negb_involutive. reflexivity. Qed.
+
+Lemma lmem_In l s : lmem l s = true <-> In l s.
+Proof.
+  unfold lmem. rewrite existsb_exists. split.
+  - intros [y [Hy E]]. apply lit_eqb_eq in E. subst. exact Hy.
+  - intros H. exists l. split; [exact H | apply lit_eqb_refl].
+Qed.
+
+Lemma lsubset_incl a b : lsubset a b = true <-> incl a b.
+Proof.
+  unfold lsubset. rewrite forallb_forall. split.
+  - intros H x Hx. apply lmem_In, H, Hx.
+  - intros H x Hx. apply lmem_In, H, Hx.
+Qed.
+
+Lemma ladd_In l s x : In x (ladd l s) <-> x = l \/ In x s.
+Proof.
+  unfold ladd. destruct (lmem l s) eqn:E.
+  - apply lmem_In in E. split; [auto|]. intros [->|H]; auto.
+  - rewrite in_app_iff. simpl. split; [intros [H|[H|[]]]; auto | intros [H|H]; auto].
+Qed.
+
+Lemma lunion_In a b x : In x (lunion a b) <-> In x a \/ In x b.
+Proof.
+  unfold lunion. revert a. induction b as [|y b IH]; intros a; simpl; [tauto|].
+  rewrite IH, ladd_In. simpl. split; [intros [[->|H]|H]; auto | intros [H|[->|H]]; auto].
+Qed.
+
+Definition rkeys (R : reltab) : list lit := map fst R.
+
+Lemma rget_rset R l v m :
+  rget (rset R l v) m = if lit_eqb m l && lmem l (rkeys R) then v else rget R m.
+Proof.
+  induction R as [|[k x] R IH]; simpl.
+  - rewrite andb_false_r. reflexivity.
+  - destruct (lit_eqb k l) eqn:Ekl; simpl.
+    + apply lit_eqb_eq in Ekl. subst k. rewrite lit_eqb_refl. simpl. rewrite andb_true_r.
+      destruct (lit_eqb m l) eqn:Eml; [reflexivity|]. rewrite IH. reflexivity.
+    + assert (Hlk : lit_eqb l k = false).
+      { destruct (lit_eqb l k) eqn:E; [|reflexivity]. apply lit_eqb_eq in E. subst. rewrite lit_eqb_refl in Ekl. discriminate. }
+      rewrite Hlk. simpl. destruct (lit_eqb m k) eqn:Emk.
+      * apply lit_eqb_eq in Emk. subst m. rewrite Ekl. reflexivity.
+      * exact IH.
+Qed.
+
+Lemma rkeys_rset R l v : rkeys (rset R l v) = rkeys R.
+Proof.
+  unfold rkeys, rset. rewrite map_map. apply map_ext. intros [k x]. simpl. destruct (lit_eqb k l); reflexivity.
+Qed.
+
+Definition rle (R R' : reltab) : Prop := rkeys R = rkeys R' /\ forall l, incl (rget R l) (rget R' l).
+
+Lemma rle_refl R : rle R R.
+Proof. split; [reflexivity | intros l; apply incl_refl]. Qed.
+Lemma rle_trans A B C : rle A B -> rle B C -> rle A C.
+Proof. intros [K1 H1] [K2 H2]. split; [congruence | intros l; eapply incl_tran; eauto]. Qed.
+
+Lemma rle_rset R l v : incl (rget R l) v -> rle R (rset R l v).
+Proof.
+  intros H. split; [symmetry; apply rkeys_rset|]. intros m. rewrite rget_rset.
+  destruct (lit_eqb m l && lmem l (rkeys R)) eqn:E; [|apply incl_refl].
+  apply andb_true_iff in E. destruct E as [E _]. apply lit_eqb_eq in E. subst. exact H.
+Qed.
+
+(* ---- the initial table *)
+Definition init_step (R : reltab) (ct : lit * lit) : reltab := rset R (fst ct) (ladd (snd ct) (rget R (fst ct))).
+
+Lemma init_step_rle R ct : rle R (init_step R ct).
+Proof. apply rle_rset. intros x Hx. apply ladd_In. auto. Qed.
+
+Lemma init_fold pairs : forall R,
+  rle R (fold_left init_step pairs R) /\
+  forall c t, In (c, t) pairs -> lmem c (rkeys R) = true -> In t (rget (fold_left init_step pairs R) c).
+Proof.
+  induction pairs as [|ct pairs IH]; intros R; simpl.
+  - split; [apply rle_refl | intros c t []].
+  - destruct (IH (init_step R ct)) as [Hle Hin]. pose proof (init_step_rle R ct) as Hs.
+    split; [eapply rle_trans; eauto|].
+    intros c t [->|Hct] Hk.
+    + destruct Hle as [_ Hle]. apply Hle. unfold init_step. simpl. rewrite rget_rset, lit_eqb_refl, Hk. simpl.
+      apply ladd_In. auto.
+    + apply Hin; [exact Hct|]. destruct Hs as [Hs _]. rewrite <- Hs. exact Hk.
+Qed.
+
+Lemma rget_base lits l : rget (map (fun l => (l, [l])) lits) l = if lmem l lits then [l] else [].
+Proof.
+  induction lits as [|k lits IH]; simpl; [reflexivity|].
+  destruct (lit_eqb l k) eqn:E; simpl; [apply lit_eqb_eq in E; subst; reflexivity | exact IH].
+Qed.
+
+Lemma rkeys_base lits : rkeys (map (fun l : lit => (l, [l])) lits) = lits.
+Proof. unfold rkeys. rewrite map_map. simpl. apply map_id. Qed.
+
+(* ---- the two kinds of visits are instances of one scheme *)
+Definition gvisit (grow : reltab -> lit -> bool) (upd : reltab -> lit -> reltab) (st : reltab * bool) (l : lit)
+  : reltab * bool := if grow (fst st) l then (upd (fst st) l, true) else st.
+
+Definition texp (R : reltab) (l : lit) : list lit := fold_left (fun acc m => lunion acc (rget R m)) (rget R l) (rget R l).
+Definition cexp (R : reltab) (l : lit) : list lit := fold_left (fun acc t => ladd (lneg t) acc) (rget R (lneg l)) (rget R l).
+
+Lemma trans_visit_g st l :
+  trans_visit st l = gvisit (fun R l => negb (lsubset (texp R l) (rget R l))) (fun R l => rset R l (texp R l)) st l.
+Proof. destruct st as [R ch]. reflexivity. Qed.
+Lemma compl_visit_g st l :
+  compl_visit st l = gvisit (fun R l => negb (lsubset (cexp R l) (rget R l))) (fun R l => rset R l (cexp R l)) st l.
+Proof. destruct st as [R ch]. reflexivity. Qed.
+
+Lemma gfold_flag grow upd lits : forall R R' ch, fold_left (gvisit grow upd) lits (R, true) = (R', ch) -> ch = true.
+Proof.
+  induction lits as [|l lits IH]; intros R R' ch H; simpl in H; [inversion H; reflexivity|].
+  unfold gvisit at 2 in H. simpl in H. destruct (grow R l); eapply IH; exact H.
+Qed.
+
+Lemma gfold_nochange grow upd lits : forall R ch0 R',
+  fold_left (gvisit grow upd) lits (R, ch0) = (R', false) ->
+  ch0 = false /\ R' = R /\ forall l, In l lits -> grow R l = false.
+Proof.
+  induction lits as [|l lits IH]; intros R ch0 R' H; simpl in H.
+  - inversion H; subst. split; [reflexivity|]. split; [reflexivity | intros l []].
+  - unfold gvisit at 2 in H. simpl in H. destruct (grow R l) eqn:Eg.
+    + apply gfold_flag in H. discriminate.
+    + destruct (IH _ _ _ H) as [A [B C]]. split; [exact A|]. split; [exact B|].
+      intros m [->|Hm]; [exact Eg | apply C, Hm].
+Qed.
+
+Lemma gfold_rle grow upd (Hupd : forall R l, rle R (upd R l)) lits : forall st,
+  rle (fst st) (fst (fold_left (gvisit grow upd) lits st)).
+Proof.
+  induction lits as [|l lits IH]; intros st; simpl; [apply rle_refl|].
+  eapply rle_trans; [|apply IH]. unfold gvisit. destruct (grow (fst st) l); simpl; [apply Hupd | apply rle_refl].
+Qed.
+
+Lemma tfold_In R ms x : forall acc,
+  In x (fold_left (fun acc m => lunion acc (rget R m)) ms acc) <-> In x acc \/ exists m, In m ms /\ In x (rget R m).
+Proof.
+  induction ms as [|m ms IH]; intros acc; simpl.
+  - split; [auto | intros [H|[m [[] _]]]; exact H].
+  - rewrite IH, lunion_In. split.
+    + intros [[H|H]|[m' [H1 H2]]]; [auto | right; exists m; auto | right; exists m'; auto].
+    + intros [H|[m' [[->|H1] H2]]]; [auto | auto | right; exists m'; auto].
+Qed.
+
+Lemma texp_In R l x : In x (texp R l) <-> In x (rget R l) \/ exists m, In m (rget R l) /\ In x (rget R m).
+Proof. unfold texp. apply tfold_In. Qed.
+
+Lemma texp_incl R l : incl (rget R l) (texp R l).
+Proof. intros x Hx. apply texp_In. auto. Qed.
+
+Lemma cfold_In ts x : forall acc,
+  In x (fold_left (fun acc t => ladd (lneg t) acc) ts acc) <-> In x acc \/ exists t, In t ts /\ x = lneg t.
+Proof.
+  induction ts as [|t ts IH]; intros acc; simpl.
+  - split; [auto | intros [H|[t [[] _]]]; exact H].
+  - rewrite IH, ladd_In. split.
+    + intros [[->|H]|[t' [H1 H2]]]; [right; exists t; auto | auto | right; exists t'; auto].
+    + intros [H|[t' [[->|H1] H2]]]; [auto | subst; auto | right; exists t'; auto].
+Qed.
+
+Lemma cexp_In R l x : In x (cexp R l) <-> In x (rget R l) \/ exists t, In t (rget R (lneg l)) /\ x = lneg t.
+Proof. unfold cexp. apply cfold_In. Qed.
+
+Lemma cexp_incl R l : incl (rget R l) (cexp R l).
+Proof. intros x Hx. apply cexp_In. auto. Qed.
+
+Lemma fold_left_ext2 {A B} (f g : A -> B -> A) (H : forall a b, f a b = g a b) l : forall a,
+  fold_left f l a = fold_left g l a.
+Proof. induction l as [|b l IH]; intros a; simpl; [reflexivity|]. rewrite H. apply IH. Qed.
+
+Lemma rel_pass_g NP R :
+  rel_pass NP R =
+  fold_left (gvisit (fun R l => negb (lsubset (cexp R l) (rget R l))) (fun R l => rset R l (cexp R l))) (all_lits NP)
+    (fold_left (gvisit (fun R l => negb (lsubset (texp R l) (rget R l))) (fun R l => rset R l (texp R l))) (all_lits NP)
+       (R, false)).
+Proof.
+  unfold rel_pass. rewrite (fold_left_ext2 _ _ compl_visit_g), (fold_left_ext2 _ _ trans_visit_g). reflexivity.
+Qed.
+
+Lemma rel_pass_rle NP R : rle R (fst (rel_pass NP R)).
+Proof.
+  rewrite rel_pass_g.
+  eapply rle_trans; [|apply gfold_rle; intros R0 l; apply rle_rset, cexp_incl].
+  apply (gfold_rle _ _ (fun R0 l => rle_rset R0 l _ (texp_incl R0 l)) _ (R, false)).
+Qed.
+
+(* ---- what the fixpoint loop establishes *)
+Definition rclosed (NP : nprob) (R : reltab) : Prop :=
+  (forall l, In l (all_lits NP) -> forall m, In m (rget R l) -> incl (rget R m) (rget R l))
+  /\ (forall l, In l (all_lits NP) -> forall t, In t (rget R (lneg l)) -> In (lneg t) (rget R l)).
+
+Lemma rel_pass_fix NP R R' : rel_pass NP R = (R', false) -> R' = R /\ rclosed NP R.
+Proof.
+  rewrite rel_pass_g. intros H.
+  destruct (fold_left (gvisit (fun R l => negb (lsubset (texp R l) (rget R l))) (fun R l => rset R l (texp R l)))
+              (all_lits NP) (R, false)) as [R1 ch1] eqn:E1.
+  destruct (gfold_nochange _ _ _ _ _ _ H) as [-> [-> Hc]].
+  destruct (gfold_nochange _ _ _ _ _ _ E1) as [_ [-> Ht]].
+  split; [reflexivity|]. split.
+  - intros l Hl m Hm x Hx. specialize (Ht l Hl). apply negb_false_iff, lsubset_incl in Ht.
+    apply Ht, texp_In. right. exists m. auto.
+  - intros l Hl t Htn. specialize (Hc l Hl). apply negb_false_iff, lsubset_incl in Hc.
+    apply Hc, cexp_In. right. exists t. auto.
+Qed.
+
+Lemma rel_loop_spec NP fuel : forall R Rf, rel_loop NP fuel R = Some Rf -> rle R Rf /\ rclosed NP Rf.
+Proof.
+  induction fuel as [|fuel IH]; intros R Rf H; simpl in H; [discriminate|].
+  pose proof (rel_pass_rle NP R) as Hle.
+  destruct (rel_pass NP R) as [R' ch] eqn:E. simpl in Hle. destruct ch.
+  - destruct (IH _ _ H) as [A B]. split; [eapply rle_trans; eauto | exact B].
+  - inversion H; subst. destruct (rel_pass_fix _ _ _ E) as [-> Hc]. split; [apply rle_refl | exact Hc].
+Qed.
+
+Definition rel_ok (NP : nprob) (R : reltab) : Prop :=
+  (forall l, In l (all_lits NP) -> In l (rget R l))
+  /\ (forall c t, In (c, t) (cond_pairs NP) -> In c (all_lits NP) -> In t (rget R c))
+  /\ rclosed NP R.
+
+(* reflexivity, "condition relevant to target", transitivity and the complement rule hold of the computed relation *)
+Theorem relevance_ok NP fuel R : relevance NP fuel = Some R -> rel_ok NP R.
+Proof.
+  unfold relevance. intros H. destruct (rel_loop_spec _ _ _ _ H) as [[_ Hle] Hc].
+  unfold rel_init in Hle.
+  change (fun (R : reltab) (ct : lit * lit) => rset R (fst ct) (ladd (snd ct) (rget R (fst ct)))) with init_step in Hle.
+  destruct (init_fold (cond_pairs NP) (map (fun l => (l, [l])) (all_lits NP))) as [[_ Hle0] Hin].
+  split; [|split; [|exact Hc]].
+  - intros l Hl. apply Hle, Hle0. rewrite rget_base. apply lmem_In in Hl. rewrite Hl. left. reflexivity.
+  - intros c t Hct Hcl. apply Hle, Hin; [exact Hct|]. rewrite rkeys_base. apply lmem_In, Hcl.
+Qed.
+
+(* ---- domination is preserved by every action *)
+Definition dom (NP : nprob) (R : reltab) (T : lit) (s' s : nstate) : Prop :=
+  forall L, In L (all_lits NP) -> In T (rget R L) -> holds_lit s' L = true -> holds_lit s L = true.
+
+Lemma lit_ok_all NP l : lit_ok NP l = true -> In l (all_lits NP).
+Proof.
+  unfold lit_ok, all_lits. rewrite existsb_exists. intros [p [Hp E]]. apply N.eqb_eq in E.
+  apply in_flat_map. exists p. split; [exact Hp|]. destruct l as [q b]. simpl in E. subst. destruct b; simpl; auto.
+Qed.
+
+Lemma all_lits_neg NP l : In l (all_lits NP) -> In (lneg l) (all_lits NP).
+Proof.
+  unfold all_lits. rewrite !in_flat_map. intros [p [Hp Hl]]. exists p. split; [exact Hp|].
+  simpl in Hl. destruct Hl as [<-|[<-|[]]]; simpl; auto.
+Qed.
+
+Lemma holds_lneg s l : holds_lit s (lneg l) = negb (holds_lit s l).
+Proof. unfold holds_lit, lneg. simpl. destruct (s (fst l)), (snd l); reflexivity. Qed.
+
+Lemma forallb_false_ex {A} (f : A -> bool) l : forallb f l = false -> exists x, In x l /\ f x = false.
+Proof.
+  induction l as [|x l IH]; simpl; [discriminate|]. destruct (f x) eqn:E; simpl.
+  - intros H. destruct (IH H) as [y [Hy Ey]]. exists y. auto.
+  - intros _. exists x. auto.
+Qed.
+
+Section DomStep.
+  Variables (NP : nprob) (R : reltab).
+  Hypothesis Hok : rel_ok NP R.
+  Hypothesis Hwf : nwf NP = true.
+  Variable a : nact.
+  Hypothesis Ha : In a (np_acts NP).
+
+  Lemma rule_lits r : In r (na_rules a) ->
+    (forall c, In c (r_cond r) -> In c (all_lits NP) /\ In (r_tgt r) (rget R c)) /\ In (r_tgt r) (all_lits NP).
+  Proof.
+    intros Hr. unfold nwf in Hwf. apply andb_true_iff in Hwf. destruct Hwf as [Hacts _].
+    rewrite forallb_forall in Hacts. specialize (Hacts a Ha). apply andb_true_iff in Hacts. destruct Hacts as [_ Hrules].
+    rewrite forallb_forall in Hrules. specialize (Hrules r Hr). apply andb_true_iff in Hrules. destruct Hrules as [Hc Ht].
+    rewrite forallb_forall in Hc. split; [|apply lit_ok_all, Ht].
+    intros c Hcin. pose proof (lit_ok_all _ _ (Hc c Hcin)) as Hcl. split; [exact Hcl|].
+    destruct Hok as [_ [Hrule _]]. apply Hrule; [|exact Hcl].
+    unfold cond_pairs. apply in_flat_map. exists a. split; [exact Ha|]. apply in_flat_map. exists r. split; [exact Hr|].
+    apply in_map_iff. exists c. auto.
+  Qed.
+
+  Variables (T : lit) (s' s : nstate).
+  Hypothesis Hdom : dom NP R T s' s.
+
+  (* a rule whose target is relevant to T fires in s whenever it fires in s' *)
+  Lemma fires_mono r : In r (na_rules a) -> In T (rget R (r_tgt r)) -> fires s' r = true -> fires s r = true.
+  Proof.
+    intros Hr HT Hf. unfold fires in *. rewrite forallb_forall in *. intros c Hc.
+    destruct (rule_lits r Hr) as [Hcs _]. destruct (Hcs c Hc) as [Hcl Htc].
+    apply Hdom; [exact Hcl | | apply Hf, Hc].
+    destruct Hok as [_ [_ [Htrans _]]]. apply (Htrans c Hcl (r_tgt r) Htc). exact HT.
+  Qed.
+
+  (* a rule whose target is the complement of a literal relevant to T fires in s' whenever it fires in s *)
+  Lemma fires_back r L : In r (na_rules a) -> In L (all_lits NP) -> In T (rget R L) -> r_tgt r = lneg L ->
+    fires s r = true -> fires s' r = true.
+  Proof.
+    intros Hr HL HT Htgt Hf. destruct (fires s' r) eqn:E; [reflexivity|]. exfalso.
+    unfold fires in E. destruct (forallb_false_ex _ _ E) as [c [Hc Hcf]].
+    destruct (rule_lits r Hr) as [Hcs _]. destruct (Hcs c Hc) as [Hcl Htc].
+    destruct Hok as [_ [_ [Htrans Hcompl]]].
+    pose proof (all_lits_neg _ _ Hcl) as Hncl.
+    assert (HLn : In L (rget R (lneg c))).
+    { rewrite <- (lneg_invol L). apply (Hcompl (lneg c) Hncl). rewrite lneg_invol, <- Htgt. exact Htc. }
+    assert (HTn : In T (rget R (lneg c))) by (apply (Htrans (lneg c) Hncl L HLn), HT).
+    assert (Hs : holds_lit s (lneg c) = true).
+    { apply Hdom; [exact Hncl | exact HTn |]. rewrite holds_lneg, Hcf. reflexivity. }
+    rewrite holds_lneg in Hs. unfold fires in Hf. rewrite forallb_forall in Hf. rewrite (Hf c Hc) in Hs. discriminate.
+  Qed.
+
+  Lemma sets_mono L : In T (rget R L) -> sets s' a L = true -> sets s a L = true.
+  Proof.
+    intros HT H. unfold sets in *. rewrite existsb_exists in *. destruct H as [r [Hr H]].
+    apply andb_true_iff in H. destruct H as [Hf Ht]. exists r. split; [exact Hr|].
+    apply andb_true_iff. split; [|exact Ht]. apply lit_eqb_eq in Ht. apply fires_mono; [exact Hr | rewrite Ht; exact HT | exact Hf].
+  Qed.
+
+  Lemma sets_back L : In L (all_lits NP) -> In T (rget R L) -> sets s a (lneg L) = true -> sets s' a (lneg L) = true.
+  Proof.
+    intros HL HT H. unfold sets in *. rewrite existsb_exists in *. destruct H as [r [Hr H]].
+    apply andb_true_iff in H. destruct H as [Hf Ht]. exists r. split; [exact Hr|].
+    apply andb_true_iff. split; [|exact Ht]. apply lit_eqb_eq in Ht. eapply fires_back; eauto.
+  Qed.
+
+  Lemma dom_step : dom NP R T (nsucc s' a) (nsucc s a).
+  Proof.
+    intros L HL HT Hh. destruct L as [p b].
+    assert (Hmono : sets s' a (p, b) = true -> sets s a (p, b) = true) by (apply sets_mono, HT).
+    assert (Hback : sets s a (p, negb b) = true -> sets s' a (p, negb b) = true) by (apply (sets_back (p, b) HL HT)).
+    assert (Hd : Bool.eqb (s' p) b = true -> Bool.eqb (s p) b = true) by (apply (Hdom (p, b) HL HT)).
+    unfold holds_lit, nsucc in *. simpl in *. destruct b; simpl in *.
+    - destruct (sets s' a (p, true)) eqn:E1.
+      + rewrite (Hmono eq_refl). reflexivity.
+      + destruct (sets s a (p, true)); [reflexivity|].
+        destruct (sets s' a (p, false)) eqn:E2; [discriminate|].
+        destruct (sets s a (p, false)) eqn:E4; [discriminate (Hback eq_refl)|].
+        apply Hd. exact Hh.
+    - destruct (sets s a (p, true)) eqn:E3.
+      + rewrite (Hback eq_refl) in Hh. discriminate.
+      + destruct (sets s' a (p, true)) eqn:E1; [discriminate|].
+        destruct (sets s' a (p, false)) eqn:E2.
+        * rewrite (Hmono eq_refl). reflexivity.
+        * destruct (sets s a (p, false)); [reflexivity|]. apply Hd. exact Hh.
+  Qed.
+End DomStep.
+
+(* ---- the kept states form a basis: every state is dominated, for every merge target, by a kept state *)
+Lemma lsubset_refl a : lsubset a a = true.
+Proof. apply lsubset_incl, incl_refl. Qed.
+Lemma lsubset_trans a b c : lsubset a b = true -> lsubset b c = true -> lsubset a c = true.
+Proof. rewrite !lsubset_incl. apply incl_tran. Qed.
+
+Lemma relset_dom NP R T s' s : lsubset (rel_set NP R T s') (rel_set NP R T s) = true -> dom NP R T s' s.
+Proof.
+  rewrite lsubset_incl. intros H L HL HT Hh.
+  assert (HinL : In L (rel_set NP R T s')).
+  { unfold rel_set, rel_sources. apply filter_In. split; [|exact Hh]. apply filter_In. split; [exact HL | apply lmem_In, HT]. }
+  apply H in HinL. unfold rel_set in HinL. apply filter_In in HinL. apply HinL.
+Qed.
+
+Section Minimals.
+  Variables (NP : nprob) (R : reltab) (T : lit).
+
+  Definition mins_ok (all : list nstate) (mins : list (nat * list lit)) : Prop :=
+    forall j es, In (j, es) mins -> exists sj, nth_error all j = Some sj /\ es = rel_set NP R T sj.
+  Definition covers (mins : list (nat * list lit)) (s : nstate) : Prop :=
+    exists j es, In (j, es) mins /\ lsubset es (rel_set NP R T s) = true.
+
+  Lemma scan_spec rs mins : forall d upd, scan_minimals rs mins = (d, upd) ->
+    (d = true <-> exists j es, In (j, es) mins /\ lsubset es rs = true)
+    /\ (forall x, In x upd -> In x mins)
+    /\ (forall j es, In (j, es) mins -> In (j, es) upd \/ lsubset rs es = true).
+  Proof.
+    induction mins as [|[ei es] mins IH]; intros d upd H; simpl in H.
+    - inversion H; subst. split; [split; [discriminate | intros [j [e [[] _]]]]|]. split; [intros x []| intros j e []].
+    - destruct (scan_minimals rs mins) as [d0 upd0] eqn:E. destruct (IH _ _ eq_refl) as [A [B C]].
+      destruct (lsubset es rs) eqn:E1.
+      + inversion H; subst. split; [split; [intros _; exists ei, es; simpl; auto | reflexivity]|].
+        split; [intros x [<-|Hx]; simpl; auto|].
+        intros j e [He|He]; [inversion He; subst; left; left; reflexivity|].
+        destruct (C j e He); [left; right; assumption | right; assumption].
+      + destruct (lsubset rs es && negb false) eqn:E2.
+        * inversion H; subst. split.
+          -- rewrite A. split; [intros [j [e [He Hs]]]; exists j, e; simpl; auto|].
+             intros [j [e [[He|He] Hs]]]; [inversion He; subst; congruence | exists j, e; auto].
+          -- split; [intros x Hx; right; apply B, Hx|].
+             intros j e [He|He]; [inversion He; subst; right; apply andb_true_iff in E2; apply E2|].
+             destruct (C j e He); auto.
+        * inversion H; subst. split.
+          -- rewrite A. split; [intros [j [e [He Hs]]]; exists j, e; simpl; auto|].
+             intros [j [e [[He|He] Hs]]]; [inversion He; subst; congruence | exists j, e; auto].
+          -- split; [intros x [<-|Hx]; simpl; auto|].
+             intros j e [He|He]; [inversion He; subst; left; left; reflexivity|].
+             destruct (C j e He); [left; right; assumption | right; assumption].
+  Qed.
+
+  Lemma minimals_from_spec all : forall states pre mins i,
+    length pre = i -> all = pre ++ states -> mins_ok all mins -> (forall s, In s pre -> covers mins s) ->
+    mins_ok all (minimals_from NP R T i states mins)
+    /\ forall s, In s all -> covers (minimals_from NP R T i states mins) s.
+  Proof.
+    induction states as [|s states IH]; intros pre mins i Hlen Hall Hok Hcov; simpl.
+    - split; [exact Hok|]. intros s Hs. apply Hcov. rewrite Hall, app_nil_r in Hs. exact Hs.
+    - destruct (scan_minimals (rel_set NP R T s) mins) as [d upd] eqn:E.
+      destruct (scan_spec _ _ _ _ E) as [A [B C]].
+      apply (IH (pre ++ [s])).
+      + rewrite app_length. simpl. lia.
+      + rewrite <- app_assoc. exact Hall.
+      + destruct d; [exact Hok|]. intros j es Hin. apply in_app_iff in Hin. destruct Hin as [Hin|[Hin|[]]].
+        * apply Hok, B, Hin.
+        * inversion Hin; subst. exists s. split; [|reflexivity].
+          rewrite nth_error_app2 by lia. rewrite Nat.sub_diag. reflexivity.
+      + intros s1 Hs1. apply in_app_iff in Hs1. destruct d.
+        * destruct Hs1 as [Hs1|[<-|[]]]; [apply Hcov, Hs1|].
+          destruct (proj1 A eq_refl) as [j [es [Hin Hsub]]]. exists j, es. auto.
+        * destruct Hs1 as [Hs1|[<-|[]]].
+          -- destruct (Hcov s1 Hs1) as [j [es [Hin Hsub]]]. destruct (C j es Hin) as [Hu|Hd].
+             ++ exists j, es. split; [apply in_app_iff; auto | exact Hsub].
+             ++ exists i, (rel_set NP R T s). split; [apply in_app_iff; right; left; reflexivity|].
+                eapply lsubset_trans; eauto.
+          -- exists i, (rel_set NP R T s). split; [apply in_app_iff; right; left; reflexivity | apply lsubset_refl].
+  Qed.
+
+  Lemma minimals_cover states s : In s states ->
+    exists j sj, In j (map fst (minimals_from NP R T 0 states [])) /\ nth_error states j = Some sj
+                 /\ lsubset (rel_set NP R T sj) (rel_set NP R T s) = true.
+  Proof.
+    intros Hs.
+    destruct (minimals_from_spec states states [] [] 0 eq_refl eq_refl) as [Hok Hcov].
+    - intros j es [].
+    - intros s1 [].
+    - destruct (Hcov s Hs) as [j [es [Hin Hsub]]]. destruct (Hok j es Hin) as [sj [Hn ->]].
+      exists j, sj. split; [apply in_map_iff; exists (j, rel_set NP R T sj); auto|]. auto.
+  Qed.
+End Minimals.
+
+Lemma nat_mem_In i l : nat_mem i l = true <-> In i l.
+Proof.
+  unfold nat_mem. rewrite existsb_exists. split.
+  - intros [j [Hj E]]. apply Nat.eqb_eq in E. subst. exact Hj.
+  - intros H. exists i. split; [exact H | apply Nat.eqb_refl].
+Qed.
+
+Lemma pick_In {A} sel (l : list A) : forall i j x,
+  nth_error l j = Some x -> nat_mem (i + j) sel = true -> In x (pick_indices sel i l).
+Proof.
+  induction l as [|y l IH]; intros i j x Hn Hm; [destruct j; discriminate|].
+  destruct j as [|j]; simpl in *.
+  - inversion Hn; subst. rewrite Nat.add_0_r in Hm. rewrite Hm. left. reflexivity.
+  - assert (In x (pick_indices sel (S i) l)) by (apply (IH (S i) j); [exact Hn | rewrite <- Nat.add_succ_comm in Hm; exact Hm]).
+    destruct (nat_mem i sel); [right|]; assumption.
+Qed.
+
+Lemma pick_sub {A} sel (l : list A) : forall i x, In x (pick_indices sel i l) -> In x l.
+Proof.
+  induction l as [|y l IH]; intros i x H; simpl in *; [exact H|].
+  destruct (nat_mem i sel); [destruct H as [->|H]; [left; reflexivity | right; eapply IH; exact H] | right; eapply IH; exact H].
+Qed.
+
+Lemma fold_ladd_In l x : forall acc, In x (fold_left (fun acc l => ladd l acc) l acc) <-> In x acc \/ In x l.
+Proof.
+  induction l as [|y l IH]; intros acc; simpl; [tauto|].
+  rewrite IH, ladd_In. split; [intros [[->|H]|H]; auto | intros [H|[->|H]]; auto].
+Qed.
+
+Lemma fold_ladd_nil l : forall acc, fold_left (fun acc l => ladd l acc) l acc = [] -> l = [] /\ acc = [].
+Proof.
+  induction l as [|y l IH]; intros acc H; simpl in H; [auto|].
+  destruct (IH _ H) as [_ Hn]. unfold ladd in Hn. destruct (lmem y acc) eqn:E.
+  - subst. discriminate.
+  - destruct acc; discriminate.
+Qed.
+
+Lemma merge_targets_In NP l : In l (flat_map na_pre (np_acts NP) ++ np_goal NP) -> In l (merge_targets NP).
+Proof. intros H. unfold merge_targets. apply fold_ladd_In. auto. Qed.
+
+(* with no merge target (no precondition, no goal literal) validity does not depend on the state *)
+Lemma nvalid_no_targets NP : merge_targets NP = [] -> forall pi s s', nvalid NP s pi = nvalid NP s' pi.
+Proof.
+  intros H. unfold merge_targets in H. apply fold_ladd_nil in H. destruct H as [H _].
+  apply app_eq_nil in H. destruct H as [Hpre Hgoal].
+  assert (Hp : forall a, In a (np_acts NP) -> na_pre a = []).
+  { intros a Ha. destruct (na_pre a) as [|c cs] eqn:E; [reflexivity|]. exfalso.
+    assert (In c (flat_map na_pre (np_acts NP))) by (apply in_flat_map; exists a; rewrite E; simpl; auto).
+    rewrite Hpre in H. destruct H. }
+  induction pi as [|i pi IH]; intros s s'; simpl.
+  - rewrite Hgoal. reflexivity.
+  - destruct (nth_error (np_acts NP) i) as [a|] eqn:E; [|reflexivity].
+    unfold nstep. rewrite (Hp a (nth_error_In _ _ E)). simpl. apply IH.
+Qed.
+
+Section Main.
+  Variables (NP : nprob) (R : reltab).
+  Hypothesis Hok : rel_ok NP R.
+  Hypothesis Hwf : nwf NP = true.
+
+  Lemma target_holds Bc sc l :
+    In l (merge_targets NP) -> In l (all_lits NP) ->
+    (forall T, In T (merge_targets NP) -> exists s', In s' Bc /\ dom NP R T s' sc) ->
+    (forall s', In s' Bc -> holds_lit s' l = true) -> holds_lit sc l = true.
+  Proof.
+    intros Ht Hl Hdom Hall. destruct (Hdom l Ht) as [s' [Hs' Hd]].
+    apply (Hd l Hl); [|apply Hall, Hs']. destruct Hok as [Hrefl _]. apply Hrefl, Hl.
+  Qed.
+
+  Lemma goal_lits_ok l : In l (np_goal NP) -> In l (all_lits NP).
+  Proof.
+    intros H. unfold nwf in Hwf. apply andb_true_iff in Hwf. destruct Hwf as [_ Hg].
+    rewrite forallb_forall in Hg. apply lit_ok_all, Hg, H.
+  Qed.
+
+  Lemma pre_lits_ok a l : In a (np_acts NP) -> In l (na_pre a) -> In l (all_lits NP).
+  Proof.
+    intros Ha H. unfold nwf in Hwf. apply andb_true_iff in Hwf. destruct Hwf as [Hacts _].
+    rewrite forallb_forall in Hacts. specialize (Hacts a Ha). apply andb_true_iff in Hacts. destruct Hacts as [Hp _].
+    rewrite forallb_forall in Hp. apply lit_ok_all, Hp, H.
+  Qed.
+
+  (* a plan valid from every state of a dominating set is valid from the dominated state *)
+  Lemma dominated_valid : forall pi Bc sc,
+    (exists s', In s' Bc) ->
+    (forall T, In T (merge_targets NP) -> exists s', In s' Bc /\ dom NP R T s' sc) ->
+    (forall s', In s' Bc -> nvalid NP s' pi = true) -> nvalid NP sc pi = true.
+  Proof.
+    induction pi as [|i pi IH]; intros Bc sc Hne Hdom Hall; simpl.
+    - apply forallb_forall. intros l Hl.
+      apply (target_holds Bc sc l); [apply merge_targets_In, in_app_iff; auto | apply goal_lits_ok, Hl | exact Hdom|].
+      intros s' Hs'. specialize (Hall s' Hs'). simpl in Hall. rewrite forallb_forall in Hall. apply Hall, Hl.
+    - destruct Hne as [s0 Hs0]. pose proof (Hall s0 Hs0) as H0. simpl in H0.
+      destruct (nth_error (np_acts NP) i) as [a|] eqn:Ea; [|discriminate]. clear H0.
+      pose proof (nth_error_In _ _ Ea) as Ha.
+      assert (Hpre : forallb (holds_lit sc) (na_pre a) = true).
+      { apply forallb_forall. intros l Hl.
+        apply (target_holds Bc sc l); [|apply (pre_lits_ok a l Ha Hl) | exact Hdom|].
+        - apply merge_targets_In, in_app_iff. left. apply in_flat_map. exists a. auto.
+        - intros s' Hs'. specialize (Hall s' Hs'). simpl in Hall. rewrite Ea in Hall. unfold nstep in Hall.
+          destruct (forallb (holds_lit s') (na_pre a)) eqn:E; [|discriminate]. rewrite forallb_forall in E. apply E, Hl. }
+      unfold nstep. rewrite Hpre.
+      apply (IH (map (fun s' => nsucc s' a) Bc)).
+      + exists (nsucc s0 a). apply in_map_iff. exists s0. auto.
+      + intros T HT. destruct (Hdom T HT) as [s' [Hs' Hd]]. exists (nsucc s' a).
+        split; [apply in_map_iff; exists s'; auto|]. apply (dom_step NP R Hok Hwf a Ha T s' sc Hd).
+      + intros t Ht. apply in_map_iff in Ht. destruct Ht as [s' [<- Hs']].
+        specialize (Hall s' Hs'). simpl in Hall. rewrite Ea in Hall. unfold nstep in Hall.
+        destruct (forallb (holds_lit s') (na_pre a)); [exact Hall | discriminate].
+  Qed.
+
+  Lemma basis_covers S0 s T :
+    2 <= length S0 -> merge_targets NP <> [] -> In T (merge_targets NP) -> In s S0 ->
+    exists s', In s' (reduce_to_basis NP R S0) /\ dom NP R T s' s.
+  Proof.
+    intros Hlen Hne HT Hs.
+    destruct (minimals_cover NP R T S0 s Hs) as [j [sj [Hj [Hn Hsub]]]].
+    exists sj. split; [|apply relset_dom, Hsub].
+    unfold reduce_to_basis, basis_indices.
+    destruct S0 as [|s0 [|s1 S']]; [simpl in Hlen; lia | simpl in Hlen; lia|].
+    destruct (merge_targets NP) as [|t0 ts] eqn:Et; [contradiction|].
+    apply (pick_In _ _ 0 j sj Hn). simpl (0 + j). apply nat_mem_In, filter_In. split.
+    - assert (Hj' : j < length (s0 :: s1 :: S')) by (apply nth_error_Some; congruence).
+      apply in_seq. simpl in *. lia.
+    - apply nat_mem_In. unfold selected_indices. apply in_flat_map. exists T. rewrite Et. auto.
+  Qed.
+
+  (* dropping the dominated states changes the conformance of no plan *)
+  Lemma reduce_sound S0 pi : nconformant NP (reduce_to_basis NP R S0) pi = nconformant NP S0 pi.
+  Proof.
+    unfold nconformant.
+    destruct (forallb (fun s => nvalid NP s pi) S0) eqn:E.
+    - rewrite forallb_forall in *. intros s Hs. apply E. unfold reduce_to_basis in Hs. eapply pick_sub, Hs.
+    - destruct (forallb (fun s => nvalid NP s pi) (reduce_to_basis NP R S0)) eqn:E2; [|reflexivity].
+      rewrite <- E. symmetry. rewrite forallb_forall in *. intros s Hs.
+      destruct S0 as [|s0 [|s1 S']].
+      + destruct Hs.
+      + apply E2. exact Hs.
+      + destruct (merge_targets NP) as [|t0 ts] eqn:Et.
+        * assert (H0 : In s0 (reduce_to_basis NP R (s0 :: s1 :: S'))).
+          { unfold reduce_to_basis, basis_indices. rewrite Et. apply (pick_In _ _ 0 0 s0); reflexivity. }
+          rewrite (nvalid_no_targets NP Et pi s s0). apply E2, H0.
+        * assert (Hne : merge_targets NP <> []) by (rewrite Et; discriminate).
+          assert (Hlen : 2 <= length (s0 :: s1 :: S')) by (simpl; lia).
+          apply (dominated_valid pi (reduce_to_basis NP R (s0 :: s1 :: S')) s).
+          -- assert (Ht0 : In t0 (merge_targets NP)) by (rewrite Et; left; reflexivity).
+             destruct (basis_covers _ s t0 Hlen Hne Ht0 Hs) as [s' [Hs' _]].
+             exists s'. exact Hs'.
+          -- intros T HT. apply (basis_covers _ s T Hlen Hne HT Hs).
+          -- exact E2.
+  Qed.
+End Main.
+
+(* MAIN THEOREM of the reduction: for the model of _get_relevance_relation / _reduce_possible_initial_states_to_basis,
+   a plan is conformant for the kept states iff it is conformant for all the possible initial states; hence neither
+   "the mapped-back plan is conformant" nor "a conformant plan exists" changes when dominated states are dropped *)
+Theorem basis_reduction_sound_lemma NP fuel R S0 :
+  nwf NP = true -> relevance NP fuel = Some R ->
+  forall pi, nconformant NP (reduce_to_basis NP R S0) pi = nconformant NP S0 pi.
+Proof. intros Hwf Hr pi. apply reduce_sound; [eapply relevance_ok; exact Hr | exact Hwf]. Qed.
+
+Corollary basis_reduction_exists NP fuel R S0 :
+  nwf NP = true -> relevance NP fuel = Some R ->
+  ((exists pi, nconformant NP (reduce_to_basis NP R S0) pi = true) <-> (exists pi, nconformant NP S0 pi = true)).
+Proof.
+  intros Hwf Hr. split; intros [pi H]; exists pi.
+  - rewrite <- (basis_reduction_sound_lemma NP fuel R S0 Hwf Hr). exact H.
+  - rewrite (basis_reduction_sound_lemma NP fuel R S0 Hwf Hr). exact H.
+Qed.
